@@ -276,6 +276,10 @@ def fmt_op(op) -> str:
         return "sort[" + ",".join(("" if asc else "-") + fmt(e) for e, asc in op[1]) + "]"
     if k == "slice":
         return f"[{op[1]}:{'' if op[2] is None else op[2]}]"
+    if k == "rawslice":
+        return f"[{op[1]}:{op[2]}:{op[3]}]"
+    if k == "index":
+        return f"[{op[1]}]"
     if k == "chain":
         return f"chain({fmt_prog(op[1])})"
     if k == "join":
